@@ -432,6 +432,14 @@ def is_instance(value: Any, type_: Any) -> bool:
     if type_ is int and (value is True or value is False):
         return False
 
+    if is_optional(type_) and value is None:
+        return True
+
+    # Unions are checked member by member. This must come before the plain isinstance
+    # check below, which accepts union types but treats bools as ints
+    if is_union(type_):
+        return any(is_instance(value, t) for t in get_args(type_))
+
     try:
         # As described in PEP 484 - section: "The numeric tower"
         if (type_ in [float, complex] and isinstance(value, (int, float))) or isinstance(
@@ -442,12 +450,6 @@ def is_instance(value: Any, type_: Any) -> bool:
         pass
     if type_ == Any:
         return True
-
-    if is_optional(type_) and value is None:
-        return True
-
-    if is_union(type_):
-        return any(is_instance(value, t) for t in get_args(type_))
 
     if is_collection(type_):
         orig = get_origin(type_)
